@@ -18,6 +18,19 @@ CHECKS = {
         technique='symbolic execution of the real Python code (CrossHair/z3), per-condition solver verdict',
         engine='E1',
     ),
+    'C10': dict(
+        category='other',
+        text=('Bounded symbolic execution (CrossHair + z3) of the real _compare/_by_operator/EmptyCell comparison code of the '
+              'regenerated runtime class and of classes emitted by the real Parser for the six comparison operators; operand '
+              'pairs of one kind and (where cheap) the operator are symbolic. Exactness against Python comparison for numbers, '
+              'order laws for texts, the blank clauses and date = date-time-at-midnight are separate solver-decided conditions.'),
+        design_ref='DESIGN.md section 6 / C10',
+        note=('floats are modelled as reals by CrossHair (order comparison involves no rounding); NaN/inf, non-ASCII text, cross-kind pairs '
+              'other than with blank are outside the claim; dates: (year, month) concrete per condition, day symbolic, hour in {0,7,13}. '
+              'One known finding (blank vs numeric-looking text) is partitioned out of the precondition.'),
+        technique='symbolic execution of the real Python code (CrossHair/z3), per-condition solver verdict',
+        engine='E1',
+    ),
 }
 
 NOT_YET = {}   # filled below for every property without a check
